@@ -29,6 +29,9 @@ def make(rule_id):
             for c in sites:
                 atoms = g.atoms_at(("t", c.bb))
                 missing = [rx for rx in row["require"] if not atoms_match(rx, atoms)]
+                # `if !seen.insert(id) { refuse }`: the insertion is itself the seen-set test
+                if missing and c.name.endswith("::insert") and any("contains" in rx for rx in missing) and _insert_is_tested(ctx, f, v, c):
+                    missing = [rx for rx in missing if "contains" not in rx]
                 key = "%s/%s/%s" % (rule_id, f.path, row["id"])
                 if missing:
                     res.fail(Finding(rule_id, key, "%s; conditions on the path to %s (line %d): %s" % (row["why"], c.name.split("::")[-1], c.line, "; ".join(a[:110] for a in atoms) or "none"), f, c.term["span"]))
@@ -37,3 +40,41 @@ def make(rule_id):
         res.floor("rows located", located, ctx.table("floors").get("guardreq_" + rule_id, 0))
         return res
     return run
+
+
+def _insert_is_tested(ctx, f, v, c):
+    """The boolean returned by `set.insert(x)` is tested right away and the `false` side (x was there already) leads to
+    nothing but an error return."""
+    t = c.term
+    if t["dest"]["proj"] or t.get("target") is None:
+        return False
+    d = t["dest"]["local"]
+    pg = v.pg
+    errs = set(v.all_err_nodes())
+    rets = set(pg.returns())
+    cur = t["target"]
+    for _ in range(4):
+        blk = f.blocks[cur]
+        tt = blk["term"]
+        if tt["t"] == "goto":
+            cur = tt["target"]
+            continue
+        if tt["t"] != "switch" or tt["discr"]["k"] not in ("copy", "move") or tt["discr"]["place"]["proj"]:
+            return False
+        dl = tt["discr"]["place"]["local"]
+        neg, src = False, dl
+        for st in blk["stmts"]:
+            if st["s"] == "assign" and not st["place"]["proj"] and st["place"]["local"] == dl:
+                if st["rv"]["r"] == "unop" and st["rv"].get("op") == "Not" and st["rv"]["a"]["k"] in ("copy", "move") and st["rv"]["a"]["place"]["local"] == d:
+                    neg, src = True, d
+                elif st["rv"]["r"] == "use" and st["rv"]["op"]["k"] in ("copy", "move") and st["rv"]["op"]["place"]["local"] == d:
+                    src = d
+        if src != d:
+            return False
+        arms = dict((int(a_), b_) for a_, b_ in tt["arms"])
+        dup = tt["otherwise"] if neg else arms.get(0)
+        if dup is None:
+            return False
+        reach = pg.reach(pg.edge_node(cur, dup), errs)
+        return not (reach & rets)
+    return False
